@@ -30,12 +30,18 @@ import (
 var (
 	ValA = []byte("verif-value-A")
 	ValB = []byte("verif-value-B")
+	// ValC passes every operator's value check except the one of Cfg.Picky (operators' checks differ in
+	// reality: each consults its own slashing-protection records)
+	ValC = []byte("verif-value-C")
 	Log  = zap.NewNop()
 )
 
 func Val(c byte) []byte {
 	if c == 'A' {
 		return ValA
+	}
+	if c == 'C' {
+		return ValC
 	}
 	return ValB
 }
@@ -48,6 +54,8 @@ func ValName(v []byte) string {
 		return "A"
 	case bytes.Equal(v, ValB):
 		return "B"
+	case bytes.Equal(v, ValC):
+		return "C"
 	}
 	return "?"
 }
@@ -59,12 +67,28 @@ func ValueCheck(data []byte) error {
 	return fmt.Errorf("value not in {A,B}")
 }
 
+// ValueCheckFor is operator id's own value check: A and B pass everywhere, C passes everywhere
+// except at c.Picky.
+func (c *Cfg) ValueCheckFor(id spectypes.OperatorID) specqbft.ProposedValueCheckF {
+	picky := c.Picky
+	return func(data []byte) error {
+		if bytes.Equal(data, ValC) {
+			if id == picky {
+				return fmt.Errorf("value C fails this operator's check")
+			}
+			return nil
+		}
+		return ValueCheck(data)
+	}
+}
+
 // ---- static configuration ----
 
 type Cfg struct {
 	N        int
 	Height   specqbft.Height
 	Byz      spectypes.OperatorID // 0 = none (all n operators honest)
+	Picky    spectypes.OperatorID // 0 = none; this operator's value check rejects ValC
 	Start    map[spectypes.OperatorID]byte
 	MaxRound specqbft.Round         // no timeout is fired at an operator whose round is >= MaxRound
 	Policy   *Policy                // behaviour of Byz (nil = silent)
@@ -240,7 +264,7 @@ func (p *Pool) Describe(id int32) string {
 	return s
 }
 
-var rootA, rootB = sha256.Sum256(ValA), sha256.Sum256(ValB)
+var rootA, rootB, rootC = sha256.Sum256(ValA), sha256.Sum256(ValB), sha256.Sum256(ValC)
 
 func RootName(r [32]byte) string {
 	switch r {
@@ -248,6 +272,8 @@ func RootName(r [32]byte) string {
 		return "A"
 	case rootB:
 		return "B"
+	case rootC:
+		return "C"
 	case [32]byte{}:
 		return "-"
 	}
@@ -257,6 +283,9 @@ func RootName(r [32]byte) string {
 func RootOf(c byte) [32]byte {
 	if c == 'A' {
 		return rootA
+	}
+	if c == 'C' {
+		return rootC
 	}
 	return rootB
 }
@@ -347,7 +376,7 @@ func newOp(c *Cfg, id spectypes.OperatorID, share *spectypes.Share) *Op {
 		Signer:                c.signerFor(id),
 		SigningPK:             share.SharePubKey,
 		Domain:                c.Domain,
-		ValueCheckF:           ValueCheck,
+		ValueCheckF:           c.ValueCheckFor(id),
 		ProposerF:             specqbft.RoundRobinProposer,
 		Storage:               o.store,
 		Network:               o.net,
